@@ -505,11 +505,11 @@ func GenChain(o GenOpts, maxLen int) *rapid.Generator[[]Step] {
 	})
 }
 
-// GenDeepChain draws a derivation chain that opens many groups: 15..64 WithGroup calls with short names, a With here
+// GenDeepChain draws a derivation chain that opens many groups: 15..300 WithGroup calls with short names, a With here
 // and there. Depth is an input like any other (per-request, per-component, per-retry loggers nest).
 func GenDeepChain(o GenOpts) *rapid.Generator[[]Step] {
 	return rapid.Custom(func(t *rapid.T) []Step {
-		n := rapid.SampledFrom([]int{15, 16, 17, 31, 32, 33, 64}).Draw(t, "depth")
+		n := rapid.SampledFrom([]int{15, 16, 17, 31, 32, 33, 64, 127, 128, 255, 256, 257, 300}).Draw(t, "depth")
 		withEvery := rapid.SampledFrom([]int{0, 0, 5, 9}).Draw(t, "withEvery")
 		out := make([]Step, 0, n+8)
 		for i := 0; i < n; i++ {
